@@ -1795,7 +1795,11 @@ impl<T: Transport, E: UtpEnvironment> UtpStreamStarter<T, E> {
             },
 
             socket: socket.clone(),
-            recovery: Recovery::default(),
+            recovery: if matches!(state, VirtualSocketState::Established) {
+                Recovery::with_initial_ack(last_sent_seq_nr, remote_window)
+            } else {
+                Recovery::default()
+            },
             #[cfg(feature = "per-connection-metrics")]
             metrics: crate::metrics::PerConnectionMetrics::new(socket.bind_addr(), remote),
         };
